@@ -24,6 +24,8 @@ func runC03(c *Ctx, r *Report) {
 	r.Doc("R-C03.3", "visited gate: stack growth only for unseen entries, which are then marked; popped entries are emitted and marked")
 	r.Doc("R-C03.4", "the end hash stops the traversal")
 	r.Doc("R-C03.5", "values() walks from the receiver's heads over the receiver's Entries")
+	r.Doc("R-C03.6", "the heads/index the linearisation reads are replaced atomically with respect to other operations")
+	appendSingleSection(c, r, "R-C03.6", "an operation landing in the window has its heads overwritten, so entries stay in the index but vanish from Values()")
 	sortFn := p.FuncObj("entry/sorting", "", "Sort")
 	sortFnF := p.Field("", "IPFSLog", "SortFn")
 	logT := p.Named("", "IPFSLog")
@@ -371,4 +373,97 @@ func lookupSubject(p *Prog, fn *Fn, okIdent *ast.Ident, visited types.Object) *t
 		return true
 	})
 	return out
+}
+
+// endHashStops: in traverse, once the comparison with the end-hash parameter succeeded no further entry is
+// taken from the work stack (shared by C03 and C15).
+func endHashStops(c *Ctx, r *Report, rule string) {
+	p := c.P
+	tr := p.Func("", "IPFSLog", "traverse")
+	var endParam types.Object
+	for i := 0; ; i++ {
+		o := paramObj(tr, i)
+		if o == nil {
+			break
+		}
+		if b, ok := o.Type().Underlying().(*types.Basic); ok && b.Kind() == types.String {
+			endParam = o
+		}
+	}
+	if endParam == nil {
+		r.Undecided(rule, r.Key(rule, tr, "end-hash", ""), tr.Body.Pos(), "traverse has no end-hash parameter")
+		return
+	}
+	may := &Flow{P: p, Fn: tr, May: true, Entry: Facts{}}
+	may.Edge = func(cond ast.Expr, taken bool, f Facts) {
+		for _, a := range splitCond(cond, taken) {
+			if be, ok := ast.Unparen(a.E).(*ast.BinaryExpr); ok && ((be.Op == token.EQL && a.Truth) || (be.Op == token.NEQ && !a.Truth)) {
+				for _, side := range []ast.Expr{be.X, be.Y} {
+					if id, ok := ast.Unparen(side).(*ast.Ident); ok && p.ObjOf(tr, id) == endParam {
+						f["atEnd"] = true
+					}
+				}
+			}
+		}
+	}
+	may.Run()
+	n, tested := 0, false
+	walkNoLit(tr.Body, func(nd ast.Node) bool {
+		if id, ok := nd.(*ast.Ident); ok && p.ObjOf(tr, id) == endParam {
+			if _, isBin := p.parent[id].(*ast.BinaryExpr); isBin {
+				tested = true
+			}
+		}
+		return true
+	})
+	r.Check(tested, rule, r.Key(rule, tr, "end-hash-tested", ""), tr.Body.Pos(), "the traversal compares visited entries with the end hash", "the traversal never compares with the end hash: a lower bound has no effect")
+	may.Visit(func(_ *cfgBlk, nd ast.Node, before Facts) {
+		walkNoLit(nd, func(x ast.Node) bool {
+			ix, ok := x.(*ast.IndexExpr)
+			if !ok {
+				return true
+			}
+			if _, isSlice := p.TypeOf(tr, ix.X).Underlying().(*types.Slice); !isSlice {
+				return true
+			}
+			if as, isAs := p.parent[ix].(*ast.AssignStmt); isAs {
+				for _, l := range as.Lhs {
+					if l == ast.Expr(ix) {
+						return true
+					}
+				}
+			}
+			if lit, ok := ast.Unparen(ix.Index).(*ast.BasicLit); !ok || lit.Value != "0" {
+				return true
+			}
+			n++
+			r.Check(!before["atEnd"], rule, r.Key(rule, tr, "pop-after-end", ""), ix.Pos(),
+				"no entry is taken from the stack once the end hash was reached", "after the end hash was reached the loop can take another entry from the stack: iteration with a lower bound runs past the bound (on forked logs the concurrent branch and the bound itself are emitted)")
+			return true
+		})
+	})
+	r.Floor(rule, "pops of the traversal stack", n, 1)
+}
+
+// appendSingleSection: Append's read of the heads and its stores lie in one critical section (shared by C03/C04/C05).
+func appendSingleSection(c *Ctx, r *Report, rule string, consequence string) {
+	le := repoLockEngine(c)
+	app := c.P.Func("", "IPFSLog", "Append")
+	bad := false
+	for _, s := range le.Splits {
+		if s.Fn.Root() == app {
+			bad = true
+			r.Violate(rule, r.Key(rule, app, "store-after-reopen", s.Field), s.Pos, "Append releases the log's lock between reading the heads and storing "+s.Field+": "+consequence)
+		}
+	}
+	// the section must actually exist: Append holds the write lock when it stores
+	held := false
+	for _, a := range le.Accesses {
+		if a.Fn.Root() == app && a.Kind != "load" && a.Held {
+			held = true
+		}
+	}
+	if !bad {
+		r.Check(held, rule, r.Key(rule, app, "single-region", ""), app.Body.Pos(), "Append reads the heads and installs the new entry in one uninterrupted critical section", "Append does not hold the log's write lock when it installs the new entry")
+	}
 }
